@@ -737,6 +737,11 @@ func (m *Machine) makeSlice(fr *frame, x *ssa.MakeSlice) Value {
 		}
 		if ct == lt {
 			c = n
+		} else if !ct.IsConst() && n >= 0 {
+			// symbolic capacity with a concrete length: the capacity is only a hint. Negative (as int) or
+			// absurd capacities panic in Go; otherwise continue with cap = len (cap() and in-place append
+			// into spare capacity are then not modelled - noted in the evidence).
+			c = m.symbolicCapHint(ct, n, x)
 		} else {
 			c = m.concretizeBounded(ct, m.maxAlloc(), "make cap")
 			if c < 0 {
@@ -758,13 +763,42 @@ func (m *Machine) symbolicAlloc(sz *Term, at ssa.Instruction) {
 	if m.Branch(neg) {
 		panic(m.rtPanic("makeslice", "makeslice: len out of range"))
 	}
-	if h := m.allocHook; h != nil {
-		h(sz, at)
+	if lim := m.Spec.AllocLimit; lim > 0 {
+		within := m.TT.BvCmp(OBvUle, sz, m.TT.BVConst(64, uint64(lim)))
+		if !m.Branch(within) {
+			m.reportViolation(fmt.Sprintf("allocation-beyond-limit-%d", lim), nil)
+			panic(&pathEnd{endStop, "allocation beyond limit"})
+		}
+		// sizes between maxalloc and the limit are legal but not modelled: the path ends here (stated bound)
+		m.Sh.mu.Lock()
+		m.Sh.Covers["alloc-within-limit-not-explored"]++
+		m.Sh.mu.Unlock()
+		panic(&pathEnd{endStop, "allocation within limit, beyond modelled size"})
 	}
 	panic(&pathEnd{endUnwind, fmt.Sprintf("allocation of symbolic size above maxalloc=%d%s", m.maxAlloc(), m.where())})
 }
 
 func (m *Machine) recordAlloc(n int64, at ssa.Instruction) {}
+
+func (m *Machine) symbolicCapHint(ct *Term, n int, at ssa.Instruction) int {
+	tt := m.TT
+	if m.Branch(tt.BvCmp(OBvSlt, ct, tt.BVConst(64, uint64(n)))) {
+		panic(m.rtPanic("makeslice", "makeslice: cap out of range"))
+	}
+	if lim := m.Spec.AllocLimit; lim > 0 {
+		if !m.Branch(tt.BvCmp(OBvUle, ct, tt.BVConst(64, uint64(lim)))) {
+			m.reportViolation(fmt.Sprintf("allocation-beyond-limit-%d", lim), nil)
+			panic(&pathEnd{endStop, "allocation beyond limit"})
+		}
+	} else if m.Branch(tt.BvCmp(OBvUlt, tt.BVConst(64, 1<<40), ct)) {
+		// more than 2^40 elements cannot be allocated: runtime panic / out of memory
+		panic(m.rtPanic("makeslice", "makeslice: cap out of range (or out of memory)"))
+	}
+	m.Sh.mu.Lock()
+	m.Sh.Covers["symbolic-capacity-hint-treated-as-len"]++
+	m.Sh.mu.Unlock()
+	return n
+}
 
 func (m *Machine) sliceOp(fr *frame, x *ssa.Slice) Value {
 	base := m.get(fr, x.X)
